@@ -24,6 +24,7 @@ import (
 	"go/parser"
 	"go/token"
 	"go/types"
+	"os"
 	"reflect"
 	"sort"
 	"strings"
@@ -32,6 +33,18 @@ import (
 	"golang.org/x/tools/go/packages"
 	"golang.org/x/tools/go/ssa"
 )
+
+// alwaysInline: reference helpers that the rules analyse in their callers (normal form "inlined"), so that the
+// tree with the helper and a tree where somebody inlined it by hand are analysed in one and the same shape.
+var alwaysInline = map[string]bool{}
+
+func init() {
+	for _, k := range strings.Split(os.Getenv("GMV_ALWAYS_INLINE"), ",") {
+		if k != "" {
+			alwaysInline[k] = true
+		}
+	}
+}
 
 type inliner struct {
 	c      *Ctx
@@ -43,15 +56,15 @@ type inliner struct {
 
 type inlCallee struct {
 	hasDefer bool   // body contains defer: expanded as an immediately-invoked function literal instead
-	name    string // snapshot key
-	recv    *ast.Field
-	typ     *ast.FuncType
-	body    *ast.BlockStmt
-	info    *types.Info
-	obj     types.Object // *types.Func or *types.Var (closure variable)
-	file    *ast.File
-	sig     *types.Signature
-	closure bool
+	name     string // snapshot key
+	recv     *ast.Field
+	typ      *ast.FuncType
+	body     *ast.BlockStmt
+	info     *types.Info
+	obj      types.Object // *types.Func or *types.Var (closure variable)
+	file     *ast.File
+	sig      *types.Signature
+	closure  bool
 }
 
 func funcKey(pk string, fd *ast.FuncDecl) string {
@@ -90,7 +103,10 @@ func inlinePackages(c *Ctx) (bool, []string) {
 			changed = true
 			notes = append(notes, in.notes...)
 			// later rounds need fresh type information: re-check this package alone against the unchanged imports
-			if !recheckOne(c, p) {
+			// (all repo packages are re-checked in dependency order, so that every package keeps referring to the
+			// same type objects)
+			if err := rebuildAll(c, false); err != nil {
+				c.inlineErr = err.Error()
 				notes = append(notes, "re-typecheck after inlining failed in "+k)
 				return changed, notes
 			}
@@ -132,7 +148,7 @@ func (in *inliner) run(pk string) bool {
 				continue
 			}
 			key := funcKey(pk, fd)
-			if !knownFuncs[key] && !ast.IsExported(fd.Name.Name) && fd.Type.TypeParams == nil {
+			if (!knownFuncs[key] || alwaysInline[key]) && !ast.IsExported(fd.Name.Name) && fd.Type.TypeParams == nil {
 				obj := p.TypesInfo.Defs[fd.Name]
 				sig, _ := obj.Type().(*types.Signature)
 				if obj != nil && sig != nil && !sig.Variadic() && !hasForbidden(fd.Body) && !callsObj(p.TypesInfo, fd.Body, obj) {
